@@ -82,6 +82,17 @@ def runOp (cfg : Cfg) (dev : Nat → Bytes → Nat × Bytes) (op : String) (s : 
         (sendCommands cfg dev (bit fl 0) fwc (bit fl 1) ri.reverse last s).map
           (fun r => ("sc=" ++ ",".intercalate (r.1.map (fun x => s!"{Hex.encode x.result}/{if x.failed then "1" else "0"}")), r.2))
     | _, _ => none
+  | ["sar", i, fl, outs, orx, pz, ck] =>
+    -- the same with a clock: `ck` = number of further iterations after which `time.time() - start > read_duration` is found true
+    let outPat? : Option Pat :=
+      if orx == "." then some { search := fun _ => true, first := fun _ => none, sub := id }
+      else (Rx.parse orx).map mkPat
+    match Hex.decode i, Hex.decodeList outs, outPat?, ck.toNat? with
+    | some input, some outs, some outPat, some k =>
+      let pauses := if pz == "." then [] else pz.toList.map (· == '1')
+      (sendInputAndRead cfg dev input (bit fl 0) outs outPat pauses (some k) s).map
+        (fun r => (s!"sar={Hex.encode r.1.1},{Hex.encode r.1.2}", r.2))
+    | _, _, _, _ => none
   | ["sar", i, fl, outs, orx, pz] =>
     let outPat? : Option Pat :=
       if orx == "." then some { search := fun _ => true, first := fun _ => none, sub := id }
